@@ -345,6 +345,12 @@ func (g *G) cond(c *gctx, depth int) *N {
 }
 
 func (g *G) thrown(c *gctx) *N {
+	if g.chance(8) {
+		// messages the interpreter uses for its own control signals: thrown by a script they are
+		// ordinary errors
+		g.feat("throw_of_a_sentinel_text")
+		return Str(rapid.SampledFrom([]string{"execution interrupted", "unexpected break statement", "unexpected continue statement", "unexpected return statement"}).Draw(g.t, "sentinel"))
+	}
 	switch g.n(0, 3, "thrown") {
 	case 0:
 		return Str(fmt.Sprintf("E%d", g.id()))
@@ -431,6 +437,11 @@ func (g *G) callExpr(c *gctx, f fnInfo, depth int) *N {
 			}
 		}
 		g.feat("call_spread_variadic")
+		if g.chance(35) {
+			// the callee as an expression, not a bare name
+			g.feat("call_spread_variadic_callee_expression")
+			return &N{K: "acall", Ns: append(append([]*N{Id(f.name)}, fixed...), sp), B: true}
+		}
 		return &N{K: "call", S: f.name, Ns: append(append([]*N{}, fixed...), sp), B: true}
 	}
 	if g.chance(20) {
@@ -643,6 +654,11 @@ func (g *G) loopStmt(c *gctx) []*N {
 		for i := 0; i < n; i++ {
 			l.Ns = append(l.Ns, g.val())
 		}
+		if g.prof.HostChan && g.prof.Control && g.chance(12) {
+			// a Go slice of nil pointers bound by the host: every element is visited, each is nil
+			g.feat("loop_forin_host_slice_of_nil_pointers")
+			l = Id("hnilptrs")
+		}
 		body := g.block(k, nb)
 		out = []*N{{K: "forin", Ps: []string{v}, Ns: []*N{l}, Ss: [][]*N{body}}}
 		g.feat("loop_forin_list")
@@ -721,7 +737,19 @@ func (g *G) switchStmt(c *gctx) *N {
 		k := c.sub()
 		cn := &N{K: "case"}
 		for j := g.n(1, 3, "caseexprs"); j > 0; j-- {
-			switch g.n(0, 2, "casek") {
+			ck := g.n(0, 2, "casek")
+			if g.prof.Control && g.chance(20) {
+				ck = 3
+			}
+			switch ck {
+			case 3:
+				// a float case against the integer subject: equal only when whole-valued and the same number
+				g.feat("switch_float_case")
+				f := float64(g.n(0, 14, "casev"))
+				if g.chance(60) {
+					f += 0.5
+				}
+				cn.Ns = append(cn.Ns, &N{K: "flt", I: int64(math.Float64bits(f))})
 			case 0:
 				cn.Ns = append(cn.Ns, Int(int64(g.n(0, 14, "casev"))))
 			case 1:
